@@ -402,6 +402,56 @@ def derivative_oracle(ck, pi, gi, rep, c, var_modes, budget_s=60.0):
 
 
 # ------------------------------------------------------------------ run
+def sqrt_scalar_stream(rep, rng, count):
+    """Oracle-only stream on the real objects (outside the polynomial model): pure circuits whose
+    scalars are sqrt(expr) and scalar(expr) with non-linear expr of two real symbols, in front of a
+    rotation body.  grad(var, mixed=False).eval() must be the sympy derivative of eval(), compared
+    numerically at a random point."""
+    import numpy
+    from discopy.quantum import gates as G
+    x, y = sympy.symbols("x y", real=True)
+    bad = 0
+    for i in range(count):
+        vals = {x: rng.uniform(0.1, 1.5), y: rng.uniform(0.1, 1.5)}
+        exprs = [y + 2, x * y + 1, x ** 2 + 1, x + y ** 2 + sympy.Rational(1, 2), 2 * x + 3, x * x * y + 4]
+        body = G.Ket(0, 0) >> G.H @ G.Rx(rng.choice([x, x * y, y / 2])) \
+            >> G.CRz(rng.choice([x + 2 * y, y, 0.25])) >> G.Rz(rng.choice([y ** 2, x])) @ G.H \
+            >> G.Bra(rng.randint(0, 1), rng.randint(0, 1))
+        parts, circuit = [], body
+        for _ in range(rng.randint(1, 2)):
+            e = rng.choice(exprs)
+            mk = rng.choice(["sqrt", "sqrt", "scalar"])
+            parts.append("%s(%s)" % (mk, e))
+            circuit = getattr(G, mk)(e) @ circuit
+        rep.count("stream:sqrt-scalars")
+        what = None
+        for var in (x, y):
+            try:
+                ev = list(numpy.array(circuit.eval().array).flatten())
+                want = numpy.array([complex(sympy.diff(sympy.sympify(e), var).subs(vals)) for e in ev])
+                gr = circuit.grad(var, mixed=False).eval()
+                if isinstance(gr, (int, float)):      # the empty sum evaluates to the number 0
+                    got = numpy.full(want.shape, gr, dtype=complex)
+                else:
+                    got = numpy.array([complex(sympy.sympify(e).subs(vals))
+                                       for e in numpy.array(gr.array).flatten()])
+                if got.shape != want.shape or not numpy.allclose(got, want, atol=1e-7, rtol=0):
+                    what = "d/d%s of %s @ body: grad(mixed=False).eval() = %r but diff(eval()) = %r at %r" % (
+                        var, " @ ".join(parts), list(got), list(want), vals)
+            except Exception as exc:   # noqa
+                what = "d/d%s of %s @ body raised %s: %s" % (var, " @ ".join(parts), type(exc).__name__, exc)
+            if what:
+                break
+        if what is None:
+            rep.count("oracle:O_sqrt_scalar:pass")
+        else:
+            bad += 1
+            rep.count("oracle:O_sqrt_scalar:FAIL")
+            if bad <= 3:
+                rep.violation("O_sqrt_scalar: " + what,
+                              {"oracle": "O_sqrt_scalar", "circuit": repr(circuit), "point": repr(vals)})
+
+
 def run(tier, seed):
     try:
         common.model_entry("grad")
@@ -636,6 +686,7 @@ def run(tier, seed):
         common.cross_check_extraction(rep, "grad", ["DV.Common.Base", "DV.Grad.GradProg"], "run_sexp",
                                       wrap(ck.programs), rng, n=150)
 
+    sqrt_scalar_stream(rep, rng, 40 if quick else 400)
     base.settle(rep, "C15", proof_ok, "C15")
     return rep.finish(
         rule="random parametrised circuits on <= 2 qubits (Rx Ry Rz, CU1 CRz CRx, pure / mixed scalars, "
